@@ -328,3 +328,99 @@ func (w *World) registerFileIntrinsics() {
 		return e.newError("crypto/bcrypt: malformed hash")
 	}
 }
+
+// ---- sort.Slice, url.Values.Encode, url.ParseQuery (C17) ----
+
+func (w *World) registerSortQueryIntrinsics() {
+	I := w.intrinsics
+	// sort.Slice on slices of at most 12 elements: the standard library sorts
+	// these by insertion sort (pdqsort's small-slice case), executed here with
+	// the real comparator closure.
+	I["sort.Slice"] = func(e *Exec, fn *ssa.Function, a []Value) Value {
+		iv := a[0].(*IfaceVal)
+		sl, ok := iv.val.(*SliceVal)
+		if !ok {
+			e.unsupported("sort.Slice on %T", iv.val)
+		}
+		if sl.n > 12 {
+			e.unsupported("sort.Slice on more than 12 elements (pdqsort proper is not modelled)")
+		}
+		less := a[1].(*FuncVal)
+		at := func(k int) *Pointer { return &Pointer{obj: sl.arr, path: []int{sl.off + k}} }
+		for i := 1; i < sl.n; i++ {
+			for j := i; j > 0; j-- {
+				r := e.callValue(less, []Value{mkInt(int64(j)), mkInt(int64(j - 1))}, nil).(*Term)
+				if !e.branch(r) {
+					break
+				}
+				x, y := e.load(at(j)), e.load(at(j-1))
+				e.store(at(j), y)
+				e.store(at(j-1), x)
+			}
+		}
+		return nil
+	}
+	qesc := func(t *Term) *Term {
+		if s, ok := t.strVal(); ok {
+			return mkStr(url.QueryEscape(s))
+		}
+		return mkUF("query_escape", SStr, t)
+	}
+	I["(net/url.Values).Encode"] = func(e *Exec, fn *ssa.Function, a []Value) Value {
+		m := a[0].(*MapVal)
+		if m.isNil || len(m.keys) == 0 {
+			return mkStr("")
+		}
+		type kv struct {
+			k string
+			v *SliceVal
+		}
+		var kvs []kv
+		for i, k := range m.keys {
+			ks, ok := k.(*Term).strVal()
+			if !ok {
+				e.unsupported("url.Values.Encode with a symbolic key")
+			}
+			if ks == cookieJarKey {
+				continue
+			}
+			kvs = append(kvs, kv{ks, m.vals[i].(*SliceVal)})
+		}
+		for i := 1; i < len(kvs); i++ {
+			for j := i; j > 0 && kvs[j].k < kvs[j-1].k; j-- {
+				kvs[j], kvs[j-1] = kvs[j-1], kvs[j]
+			}
+		}
+		var parts []*Term
+		for _, p := range kvs {
+			for _, v := range e.sliceElems(p.v) {
+				if len(parts) > 0 {
+					parts = append(parts, mkStr("&"))
+				}
+				parts = append(parts, mkStr(url.QueryEscape(p.k)+"="), qesc(v.(*Term)))
+			}
+		}
+		return mkConcat(parts...)
+	}
+	I["net/url.ParseQuery"] = func(e *Exec, fn *ssa.Function, a []Value) Value {
+		s, ok := a[0].(*Term).strVal()
+		if !ok {
+			e.unsupported("url.ParseQuery on a symbolic string")
+		}
+		vals, err := url.ParseQuery(s)
+		e.objCounter++
+		m := &MapVal{id: e.objCounter, ktyp: types.Typ[types.String], vtyp: types.NewSlice(types.Typ[types.String])}
+		for _, k := range sortedKeys(vals) {
+			var ts []*Term
+			for _, v := range vals[k] {
+				ts = append(ts, mkStr(v))
+			}
+			m.keys = append(m.keys, mkStr(k))
+			m.vals = append(m.vals, e.stringSlice(ts...))
+		}
+		if err != nil {
+			return tuple(m, e.newError("invalid query"))
+		}
+		return tuple(m, nilIface)
+	}
+}
